@@ -425,7 +425,7 @@ static int do_replay(const std::string& file)
 	if (!read_file(file, b) || !Json::parse(b, j)) { fprintf(stderr, "cannot read %s\n", file.c_str()); return 2; }
 	RunPlan p = RunPlan::from_json(j.at("plan"));
 	Json r;
-	if (!run_plan_fresh(p, r)) { fprintf(stderr, "replay execution failed\n"); return 2; }
+	if (!run_plan_fresh(p, r, 3600)) { fprintf(stderr, "replay execution failed\n"); return 2; }
 	std::string prop = j.str("property"), cls = j.str("class");
 	const Json* v = find_violation(r, prop, cls);
 	if (v) {
